@@ -9,7 +9,7 @@ from vlib import coq_bool, coq_list, coq_option
 
 HEADER = ('From Teleport Require Import Base.Bytes Base.Outcome Model.Eth Model.EthCheck.\n'
           'Local Open Scope N_scope.\n')
-SHARD_STEPS = 700   # submissions per Coq file
+SHARD_STEPS = 400   # submissions per Coq file
 
 KINDS = {
     1: 'model and code disagree on accept / reject / panic of a submitted header',
@@ -17,6 +17,8 @@ KINDS = {
     3: 'model and code disagree on the state after CreateClient',
     12: 'the model consulted a seal verdict the harness did not tabulate (model and code disagree on the checks before the seal)',
     13: 'a submitted header is missing from the hash table',
+    16: 'a refused update changed the observed state (the harness observes the unchanged branch: harness defect)',
+    15: 'the case does not decode (harness output / encoder out of step with Model/EthCheck.v)',
     14: 'tabulated hash oracle violates the hypotheses (32 bytes, different numbers => different hashes)',
     21: 'header accepted although no stored header is its rule-abiding parent (parent lookup, parent hash, timestamp, gas limit, '
         'base fee, difficulty / extra data / seal outside Rinkeby)',
@@ -36,85 +38,160 @@ KEYS = {41: 'eth-fork-below-pruned-prefix', 42: 'eth-reorg-to-expired-branch', 4
         44: 'eth-revision-number'}
 
 
-class Intern:
-    """names byte strings once per Coq file; bytes are given as hex text"""
+class Enc:
+    """binary case format decoded by Model/EthCheck.v: pcase"""
 
     def __init__(self):
-        self.names = {}
-        self.defs = []
+        self.out = bytearray()
 
-    def b(self, hexs):
-        hexs = hexs.lower()
-        if len(hexs) == 0:
-            return '[]'
-        n = self.names.get(hexs)
-        if n is None:
-            n = 'b%d' % len(self.names)
-            self.names[hexs] = n
-            raw = bytes.fromhex(hexs)
-            if len(raw) >= 8 and raw == bytes([raw[0]]) * len(raw):
-                self.defs.append('Definition %s : bytes := repeat x%02x %d.' % (n, raw[0], len(raw)))
-            else:
-                self.defs.append('Definition %s : bytes := unhex "%s".' % (n, hexs))
-        return n
+    def u(self, k, x):
+        self.out += int(x).to_bytes(k, 'big')
+
+    def var(self, x):
+        x = int(x)
+        k = (x.bit_length() + 7) // 8
+        self.u(1, k)
+        self.out += x.to_bytes(k, 'big')
+
+    def bytes_(self, hexs):
+        raw = bytes.fromhex(hexs)
+        self.u(2, len(raw))
+        self.out += raw
 
 
-def N(x):
-    return '%d' % int(x)
+def hexok(h):
+    return all(ch in '0123456789abcdefABCDEF' for ch in h) and len(h) % 2 == 0
 
 
-def hdr_term(it, n, parent):
-    return ('{| h_parent := %s; h_uncle := %s; h_coinbase := %s; h_root := %s; h_tx := %s; h_receipt := %s; h_bloom := %s; '
-            'h_diff := %s; h_rev := %s; h_num := %s; h_gaslimit := %s; h_gasused := %s; h_time := %s; h_extra := %s; '
-            'h_mix := %s; h_nonce := %s; h_basefee := %s |}') % (
-        it.b(parent), it.b(n['uncle']), it.b(n['coinbase']), it.b(n['root']), it.b(n['tx']), it.b(n['receipt']),
-        it.b(n['bloom']), it.b(n['diff']), N(n['rev']), N(n['num']), N(n['gaslimit']), N(n['gasused']), N(n['time']),
-        it.b(n['extra']), it.b(n['mix']), N(n['nonce']), it.b(n['basefee']))
+def enc_cstate(e, t, rev, num, root):
+    e.var(t); e.var(rev); e.var(num); e.bytes_(root if hexok(root) else 'ff')
 
 
-def cstate_term(it, t, rev, num, root):
-    return '{| c_time := %s; c_rev := %s; c_num := %s; c_root := %s |}' % (N(t), N(rev), N(num), it.b(root))
+def ix(i, n):
+    return i if 0 <= i < n else 65535
 
 
-def obs_term(it, hn, sp, o):
-    def hd(i):
-        return coq_option(hn[i] if 0 <= i < len(hn) else None)
-    cons = []
+def store_of(o, nh):
+    """observation -> (cons dict key -> entry, idx list, rmain list) with table indices"""
+    cons = {}
     for c in o['cons'] or []:
-        if c['id'] >= 0:
-            v = '(cstate_of %s)' % hn[c['id']]
+        if 0 <= c['id'] < nh:
+            v = ('h', c['id'])
         elif c['id'] == -2:
-            v = cstate_term(it, sp['cons']['time'], sp['cons']['rev'], sp['cons']['num'], sp['cons']['root'])
+            v = ('c0',)
         else:
-            root = c['root'] if all(ch in '0123456789abcdefABCDEF' for ch in c['root']) and len(c['root']) % 2 == 0 else 'ff'
-            v = cstate_term(it, c['time'], c['crev'], c['cnum'], root)
-        cons.append('((%s, %s), %s)' % (N(c['rev']), N(c['num']), v))
-    return ('{| o_class := %d; o_head := %s; o_rest_same := %s; o_cons := %s; o_idx := %s; o_rmain := %s; o_other := %d |}' % (
-        o['class'], hd(o['head']), coq_bool(o['rest_same']), coq_list(cons), coq_list([hd(i) for i in o['idx'] or []]),
-        coq_list(['(%s, %s)' % (hd(a), hd(b)) for a, b in o['rmain'] or []]), o['other']))
+            v = ('x', c['time'], c['crev'], c['cnum'], c['root'])
+        cons[(c['rev'], c['num'])] = v
+    return cons, [ix(i, nh) for i in o['idx'] or []], [(ix(a, nh), ix(b, nh)) for a, b in o['rmain'] or []]
 
 
-def case_defs(it, idx, r):
+def multiset_diff(old, new):
+    """(removed, added) such that removing ALL occurrences of `removed` values from old and appending `added` gives new (as a multiset)"""
+    from collections import Counter
+    co, cn = Counter(old), Counter(new)
+    removed = [x for x in co if co[x] != cn.get(x, 0)]
+    added = []
+    for x in cn:
+        if co.get(x, 0) != cn[x]:
+            added += [x] * cn[x]
+    return removed, added
+
+
+def enc_obs(e, nh, o, ref):
+    """ref = (head, rest_same, other, cons, idx, rmain) of the state the step started from; returns the tuple of o"""
+    e.u(1, o['class'])
+    if o['class'] != 0:
+        return ref
+    cons, idx, rm = store_of(o, nh)
+    e.u(2, ix(o['head'], nh)); e.u(1, 1 if o['rest_same'] else 0); e.u(2, min(o['other'], 65535))
+    rcons, ridx, rrm = ref[3], ref[4], ref[5]
+    cdel = [k for k in rcons if k not in cons]
+    cadd = [(k, v) for k, v in cons.items() if rcons.get(k) != v]
+    e.u(2, len(cdel))
+    for r, n in cdel:
+        e.var(r); e.var(n)
+    e.u(2, len(cadd))
+    for (r, n), v in cadd:
+        e.var(r); e.var(n)
+        if v[0] == 'h':
+            e.u(2, v[1])
+        elif v[0] == 'c0':
+            e.u(2, 65534)
+        else:
+            e.u(2, 65535)
+            enc_cstate(e, v[1], v[2], v[3], v[4])
+    idel, iadd = multiset_diff(ridx, idx)
+    e.u(2, len(idel))
+    for i in idel:
+        e.u(2, i)
+    e.u(2, len(iadd))
+    for i in iadd:
+        e.u(2, i)
+    rdel, radd = multiset_diff(rrm, rm)
+    e.u(2, len(rdel))
+    for a, b in rdel:
+        e.u(2, a); e.u(2, b)
+    e.u(2, len(radd))
+    for a, b in radd:
+        e.u(2, a); e.u(2, b)
+    return (ix(o['head'], nh), o['rest_same'], o['other'], cons, idx, rm)
+
+
+def same_obs(nh, o, ref):
+    cons, idx, rm = store_of(o, nh)
+    return (ix(o['head'], nh), o['rest_same'], o['other']) == ref[:3] and cons == ref[3] and sorted(idx) == sorted(ref[4]) \
+        and sorted(rm) == sorted(ref[5])
+
+
+def enc_case(r):
+    """returns (bytes, list of steps (1-based) at which a refused update changed the observed state)"""
     sp = r['spec']
-    out, hn = [], []
-    for j, n in enumerate(sp['nodes']):
-        name = 'c%d_h%d' % (idx, j)
-        out.append('Definition %s : header := %s.' % (name, hdr_term(it, n, r['parents'][j])))
-        hn.append(name)
-    table = coq_list(['(%s, (%s, %d%%nat))' % (hn[j], it.b(o['hash']), o['ethash']) for j, o in enumerate(r['oracle'])])
-    steps = []
-    for st, o in zip(sp['steps'] or [], r['obs'] or []):
-        if not (0 <= st['n'] < len(hn)):
-            continue
-        steps.append('{| s_bt := %s; s_hdr := %s; s_probe := %s; s_obs := %s |}' % (
-            N(st['bt']), hn[st['n']], coq_bool(st['probe']), obs_term(it, hn, sp, o)))
-    name = 'c%d' % idx
+    e = Enc()
+    e.u(1, 1 if sp['mode'] == 'raw' else 0); e.var(sp['chain_id']); e.var(sp['trust'])
     c = sp['cons']
-    out.append(('Definition %s : case := {| k_raw := %s; k_chain := %s; k_trust := %s; k_genesis := %s; k_cons := %s; '
-                'k_table := %s; k_create := %s; k_steps := %s |}.') % (
-        name, coq_bool(sp['mode'] == 'raw'), N(sp['chain_id']), N(sp['trust']), hn[0],
-        cstate_term(it, c['time'], c['rev'], c['num'], c['root']), table, obs_term(it, hn, sp, r['create']), coq_list(steps)))
-    return out, name
+    enc_cstate(e, c['time'], c['rev'], c['num'], c['root'])
+    pool, pix = [], {}
+
+    def ref(h):
+        h = h.lower()
+        if h not in pix:
+            pix[h] = len(pool)
+            pool.append(h)
+        return pix[h]
+    hdrs = []
+    for j, n in enumerate(sp['nodes']):
+        refs = [ref(x) for x in (r['parents'][j], n['uncle'], n['coinbase'], n['root'], n['tx'], n['receipt'], n['bloom'],
+                                 n['diff'], n['extra'], n['mix'], n['basefee'])]
+        hdrs.append((refs, [n['rev'], n['num'], n['gaslimit'], n['gasused'], n['time'], n['nonce']],
+                     ref(r['oracle'][j]['hash']), r['oracle'][j]['ethash']))
+    e.u(2, len(pool))
+    for h in pool:
+        e.bytes_(h)
+    e.u(2, len(hdrs))
+    for refs, nums, hr, seal in hdrs:
+        for x in refs:
+            e.u(2, x)
+        for x in nums:
+            e.var(x)
+        e.u(2, hr); e.u(1, seal)
+    nh = len(hdrs)
+    cur = enc_obs(e, nh, r['create'], (65535, False, 0, {}, [], []))
+    steps = list(zip(sp['steps'] or [], r['obs'] or []))
+    e.u(2, len(steps))
+    dirty = []
+    for j, (st, o) in enumerate(steps):
+        e.var(st['bt']); e.u(2, ix(st['n'], nh)); e.u(1, 1 if st['probe'] else 0)
+        nxt = enc_obs(e, nh, o, cur)
+        if o['class'] != 0 and not same_obs(nh, o, cur):
+            dirty.append(j + 1)
+        if o['class'] == 0 and not st['probe']:
+            cur = nxt
+    return bytes(e.out), dirty
+
+
+def coq_bytes(raw):
+    chunks = [raw[p:p + 1500] for p in range(0, len(raw), 1500)]
+    return 'List.concat [%s]' % ';\n'.join('[%s]' % ';'.join('x%02x' % c for c in ch) for ch in chunks)
 
 
 def shards_of(results):
@@ -138,21 +215,21 @@ def evaluate(workdir, results, tag='cases'):
 
     def one(ix):
         i, members = ix
-        it = Intern()
-        body, names = [], []
+        defs, names, dirty = '', [], []
         for j, ci in enumerate(members):
-            d, n = case_defs(it, j, results[ci])
-            body += d
-            names.append(n)
-        defs = '\n'.join(it.defs) + '\n' + '\n'.join(body) + '\nDefinition cases : list case := %s.\n' % coq_list(names)
+            raw, d = enc_case(results[ci])
+            dirty += [(ci, st, 16) for st in d]
+            defs += 'Definition c%d : bytes := %s.\n' % (j, coq_bytes(raw))
+            names.append('c%d' % j)
+        defs += 'Definition cases : list bytes := %s.\n' % coq_list(names)
         res = vlib.coq_eval_lists(workdir, '%s_%d.v' % (tag, i), HEADER, defs,
-                                  [('M', 'mismatches cases'), ('F', 'monitor_failures cases'), ('O', 'oracle_failures cases')])
+                                  [('R', 'report cases'), ('M', 'fst (fst R)'), ('F', 'snd (fst R)'), ('O', 'snd R')])
         m = vlib.parse_nat_tuples(res.get('M'), 3)
         f = vlib.parse_nat_tuples(res.get('F'), 3)
         o = vlib.parse_nat_tuples(res.get('O'), 1)
         if res['_rc'] != 0 or m is None or f is None or o is None:
             return ('error', res['_out'][-3000:])
-        return ([(members[h], s, k) for h, s, k in m] + [(members[h], 0, 14) for (h,) in o],
+        return ([(members[h], s, k) for h, s, k in m] + [(members[h], 0, 14) for (h,) in o] + dirty,
                 [(members[h], s, k) for h, s, k in f])
 
     outs = vlib.parallel(one, list(enumerate(shards)), workers=14)
